@@ -8,32 +8,34 @@ import (
 	"go/ast"
 )
 
-func init() {
-	register("C26", func(repo string) (string, error) {
+// c26Facts reads HopHeaders, hopByHopProtected and the write exclusion table and checks the shape of hopByHopHeaderRemove.
+func c26Facts(repo string) (hop, prot, excl []string, err error) {
+	fail := func(e error) ([]string, []string, []string, error) { return nil, nil, nil, e }
+	{
 		_, f, err := parseFile(repo, "bfe_basic/common.go")
 		if err != nil {
-			return "", err
+			return fail(err)
 		}
 		cl, ok := findValue(f, "HopHeaders").(*ast.CompositeLit)
 		if !ok {
-			return "", fmt.Errorf("bfe_basic.HopHeaders is not a composite literal")
+			return fail(fmt.Errorf("bfe_basic.HopHeaders is not a composite literal"))
 		}
 		var hop []string
 		for _, e := range cl.Elts {
 			s, ok := strLit(e)
 			if !ok {
-				return "", fmt.Errorf("bfe_basic.HopHeaders: non-literal element")
+				return fail(fmt.Errorf("bfe_basic.HopHeaders: non-literal element"))
 			}
 			hop = append(hop, s)
 		}
 		// hopByHopHeaderRemove must still range over bfe_basic.HopHeaders
 		_, g, err := parseFile(repo, "bfe_server/reverseproxy.go")
 		if err != nil {
-			return "", err
+			return fail(err)
 		}
 		fd := findFunc(g, "", "hopByHopHeaderRemove")
 		if fd == nil {
-			return "", fmt.Errorf("hopByHopHeaderRemove not found")
+			return fail(fmt.Errorf("hopByHopHeaderRemove not found"))
 		}
 		// shape the model describes (after fix C26-connection-tokens):
 		//   hopHeaders := bfe_basic.HopHeaders[...]  + append(… CanonicalHeaderKey(token of req.Header["Connection"]))
@@ -60,16 +62,80 @@ func init() {
 			return true
 		})
 		if !usesTable || !readsConnection || !rangesLocal || usesGet {
-			return "", fmt.Errorf("hopByHopHeaderRemove does not have the shape the C26 model describes (HopHeaders=%v Header[\"Connection\"]=%v range hopHeaders=%v Header.Get=%v)",
-				usesTable, readsConnection, rangesLocal, usesGet)
+			return fail(fmt.Errorf("hopByHopHeaderRemove does not have the shape the C26 model describes (HopHeaders=%v Header[\"Connection\"]=%v range hopHeaders=%v Header.Get=%v)",
+				usesTable, readsConnection, rangesLocal, usesGet))
+		}
+		// names a Connection token cannot remove: var hopByHopProtected = map[string]bool{ bfe_basic.HeaderX: true, ... }
+		pcl, ok := findValue(g, "hopByHopProtected").(*ast.CompositeLit)
+		if !ok {
+			return fail(fmt.Errorf("bfe_server.hopByHopProtected is not a composite literal"))
+		}
+		var prot []string
+		for _, e := range pcl.Elts {
+			kv, ok := e.(*ast.KeyValueExpr)
+			if !ok {
+				return fail(fmt.Errorf("hopByHopProtected: unexpected element"))
+			}
+			val, ok := kv.Value.(*ast.Ident)
+			if !ok || val.Name != "true" {
+				return fail(fmt.Errorf("hopByHopProtected: value is not the literal true"))
+			}
+			name := ""
+			switch k := kv.Key.(type) {
+			case *ast.SelectorExpr:
+				if c, ok := strLit(findValue(f, k.Sel.Name)); ok {
+					name = c
+				}
+			case *ast.BasicLit:
+				name, _ = strLit(k)
+			}
+			if name == "" {
+				return fail(fmt.Errorf("hopByHopProtected: key is neither a string literal nor a bfe_basic string constant"))
+			}
+			prot = append(prot, name)
+		}
+		usesProt := false
+		ast.Inspect(fd, func(n ast.Node) bool {
+			if ix, ok := n.(*ast.IndexExpr); ok {
+				if id, ok := ix.X.(*ast.Ident); ok && id.Name == "hopByHopProtected" {
+					usesProt = true
+				}
+			}
+			return true
+		})
+		if !usesProt {
+			return fail(fmt.Errorf("hopByHopHeaderRemove does not consult hopByHopProtected"))
 		}
 		excl, err := c25ExcludeTable(repo)
 		if err != nil {
+			return fail(err)
+		}
+		return hop, prot, excl, nil
+	}
+}
+
+func init() {
+	register("C26", func(repo string) (string, error) {
+		hop, prot, excl, err := c26Facts(repo)
+		if err != nil {
 			return "", err
 		}
-		return header("C26", "bfe_basic/common.go", "bfe_http/request.go") +
+		return header("C26", "bfe_basic/common.go", "bfe_server/reverseproxy.go", "bfe_http/request.go") +
 			leanBytesList("hopHeaders", "bfe_basic.HopHeaders in source order", hop) + "\n" +
+			leanBytesList("hopProtected", "keys of bfe_server.hopByHopProtected (headers BFE sets itself; Connection tokens cannot remove them)", prot) + "\n" +
 			leanBytesList("reqWriteExclude", "keys of reqWriteExcludeHeader mapped to true", excl) +
 			footer("C26"), nil
+	})
+	// C29 composes the C26 model of hopByHopHeaderRemove: its own copy of the two tables lets C29's Props assert
+	// that Generated/C26.lean is not stale (theorem C29_tables_current)
+	register("C29", func(repo string) (string, error) {
+		hop, prot, _, err := c26Facts(repo)
+		if err != nil {
+			return "", err
+		}
+		return header("C29", "bfe_basic/common.go", "bfe_server/reverseproxy.go") +
+			leanBytesList("hopHeaders", "bfe_basic.HopHeaders in source order", hop) + "\n" +
+			leanBytesList("hopProtected", "keys of bfe_server.hopByHopProtected", prot) +
+			footer("C29"), nil
 	})
 }
